@@ -794,9 +794,14 @@ def c08(tier, seed):
                     srch.step(srch.KVK, [], limit=3, watch_ms=20000)])
         # the deep and the unlimited runs once more on the checked build: "without crashing or corrupting state" - a silent
         # overrun of a fixed-capacity buffer is invisible in the release build and a panic there
+        # lines that never branch (TLC family FORCED): depth N must end at depth N there as well
+        ff = families(run, [("FORCED", 1)], seed, "C08forced")
+        forced = [l.strip() for l in open(ff[0]) if l.strip()]
+        forced = rnd.sample(forced, min(len(forced), 16 if quick else 120))
+        fl = [[srch.step(f, [], limit=dd, watch_ms=20000)] for f in forced for dd in (2, 3, 5)]
         vhc = core.build_harness("checked")
-        srch.run_histories(run, vh, "C08", deep[:: (2 if quick else 1)] + unl[:4], {"C08"}, "checked-deep", profile_vh=vhc)
-        return [("scn", hs), ("limitpairs", pairs), ("deeplimits", deep), ("unlimited", unl)]
+        srch.run_histories(run, vh, "C08", deep[:: (2 if quick else 1)] + unl[:4] + fl[:: (2 if quick else 1)], {"C08"}, "checked-deep", profile_vh=vhc)
+        return [("scn", hs), ("limitpairs", pairs), ("deeplimits", deep), ("unlimited", unl), ("forcedlines", fl)]
     search_check("C08", {"C08"}, tier, seed, build)
 
 
@@ -941,7 +946,8 @@ def c19(tier, seed):
                    ("position fen 8/2p5/3p4/KP5r/1R3p1k/8/4P1P1/8 w - - 0 1", 7)]
         if not quick:
             targets += [("position fen " + POS4, 5), ("position fen " + POS5, 5), ("position fen " + KIWI, 7), ("position startpos", 8)]
-        junk_gos = ["go movetime 400 depth 1", "go movetime 900 depth 2", "go depth 3", "go movetime 30", "go wtime 60000 btime 60000 winc 0 binc 0 depth 1"]
+        junk_gos = ["go movetime 400 depth 1", "go movetime 900 depth 2", "go depth 3", "go movetime 30", "go wtime 60000 btime 60000 winc 0 binc 0 depth 1",
+                    "go depth 6", "go movetime 600"]
         groups = []
         for ti, (posn, dep) in enumerate(targets):
             g = []
@@ -959,6 +965,11 @@ def c19(tier, seed):
                     steps += [{"waitbest": 20}]
                 steps += [{"send": "ucinewgame"}, {"send": posn}, {"send": "go depth %d" % dep}, {"waitbest": 60}, {"quit": True}]
                 g.append({"id": "after-history-%d-%d" % (ti, k), "binary": binary, "steps": steps})
+            # a deep search of another position before the reset: whatever it learnt (history counters, killers, table) must be gone
+            for k, (jp, jd) in enumerate([(targets[(ti + 1) % len(targets)][0], 7), ("position fen r1bq1rk1/pp2ppbp/2np1np1/8/3NP3/2N1BP2/PPPQ2PP/R3KB1R w KQ - 0 1", 7)]):
+                g.append({"id": "after-deep-search-%d-%d" % (ti, k), "binary": binary, "steps": [
+                    {"send": jp}, {"send": "go depth %d" % jd}, {"waitbest": 90},
+                    {"send": "ucinewgame"}, {"send": posn}, {"send": "go depth %d" % dep}, {"waitbest": 60}, {"quit": True}]})
             # the scenario named in the statement: "whatever was searched before the reset" includes a timer still asleep
             g.append({"id": "stale-timer-%d" % ti, "binary": binary, "steps": [
                 {"send": "position startpos"}, {"send": "go movetime 500 depth 1"}, {"waitbest": 20},
@@ -1571,6 +1582,17 @@ def c15(tier, seed):
             sessions.append({"id": "longrr-%d-%s" % (n, go.replace(" ", "")), "binary": checked, "steps": [
                 {"send": "position fen %s moves %s" % (rr, " ".join(cyc[i % 4] for i in range(n)))}, {"send": go}, {"sleep": 2.0}, {"send": "stop"},
                 {"waitbest": 20}, {"send": "isready"}, {"quit": True}]})
+    # lines that never branch (TLC family FORCED: one legal move for each side, for ever): a ply of the line must cost a ply of
+    # the depth limit, or the ply counter (u8) and the state stack run over
+    ff = families(run, [("FORCED", 1)], seed, "C15forced")
+    forced = [l.strip() for l in open(ff[0]) if l.strip()]
+    import random as _r2
+    forced = _r2.Random(seed).sample(forced, min(len(forced), 12 if quick else 80))
+    for i, f in enumerate(forced):
+        sessions.append({"id": "forced-line-%d" % i, "binary": checked, "steps": [
+            {"send": "position fen " + f}, {"send": "go depth 3"}, {"waitbest": 20}, {"send": "position fen " + f, "afterbest": True},
+            {"send": "go depth 6", "afterbest": True}, {"waitbest": 30}, {"send": "isready"}, {"quit": True}]})
+    run.cov["forced_line_positions"] = len(forced)
     outs, n_ev = run_sessions(run, "C15", sessions, {"C14", "C15", "C06", "C07", "C08"}, "capacity", par=8)
     # (B2) self-play on the checked build: every search ended by the hook after N polls
     sp = []
